@@ -2,6 +2,7 @@
 """seeded/<tag>/meta.json from the author's meta and what tools_seed.sh recorded (ran.txt)"""
 import json, os, glob, re
 V = os.path.dirname(os.path.abspath(__file__))
+HIST = json.load(open(os.path.join(V, 'seeded', 'histories.json')))   # how a check that first missed a change was strengthened (written by hand)
 for d in sorted(glob.glob(os.path.join(V, 'seeded', '*'))):
     am, ran = os.path.join(d, 'author_meta.json'), os.path.join(d, 'ran.txt')
     if not (os.path.exists(am) and os.path.exists(ran)): continue
@@ -19,5 +20,6 @@ for d in sorted(glob.glob(os.path.join(V, 'seeded', '*'))):
                 ran=['git apply demo.diff; cargo nextest … verif_demo (pristine, then with patch.diff)', '/verif/tools_suite.sh <worktree> with patch.diff',
                      'git -C /repo apply patch.diff; ./check <ID> quick; git -C /repo checkout -- .'],
                 caught_by='; '.join(caught), author_demo_failure=a.get('demo_changed'))
+    if os.path.basename(d) in HIST: meta['history'] = HIST[os.path.basename(d)]
     json.dump(meta, open(os.path.join(d, 'meta.json'), 'w'), indent=1)
     print(os.path.basename(d), meta['caught_by'][:100])
